@@ -651,12 +651,10 @@ class SimulateOde(DeterministicOde):
         # (e.g. 2 timepoints =1 jump, 10 timepoints =9)
         X_out=np.zeros((len(targetTime)-1, n_trans))
 
-        # if exact, each point corresponds to a transitions and has weight 1.
+        # t[0] is the initial time, not an event; step k (time t[k+1]) fired dX[k,i] times transition i
+        # (exact: one-hot rows, tau-leap: Poisson counts), so the same weighted histogram serves both modes.
         for i in range(n_trans):
-            if exact:
-                hist, bin_edges=np.histogram(t, bins=targetTime)
-            else:
-                hist, bin_edges=np.histogram(t[1:], bins=targetTime, weights=dX[:,i])
+            hist, bin_edges=np.histogram(t[1:], bins=targetTime, weights=dX[:,i])
             X_out[:,i]=hist            
 
         return X_out
